@@ -253,7 +253,7 @@ Lemma migrate_at_target m target :
   get "schema_version" m = Some (VInt target) -> 0 <= target <= last_version ->
   migrate O (Some m) target = OSame.
 Proof.
-  unfold migrate, field_val, last_version. intros -> R. cbn [has_ty fv_val zint].
+  unfold migrate, field_val, last_version. intros -> R. cbn [has_ty coerce fv_val zint].
   rewrite Z.mod_small by lia.
   destruct (target >? target) eqn:E1; [lia|].
   destruct (target >? 29) eqn:E2; [lia|]. now rewrite Z.eqb_refl.
